@@ -40,6 +40,49 @@ claim("C04",
       BOUND + "Kani has no unwinding: the state after a panic is inferred from the obligation at the panic point; locals held by the operation at a callback are not modelled. " + TB,
       "panic points as proof obligations (monitor contract at each callback), discharged by Kani", "DESIGN 4.4, 6/C04, 7")
 
+KH = "Kani contract harnesses on the real compiled crate (arbitrary well-formed pre-state -> call -> postcondition on the whole view)"
+claim("C03",
+      "For every safe insertion entry point (insert, insert_key_value, entry().or_insert*/or_default, VacantEntry::insert, collect/extend, Set::insert/replace) from every full state with an absent key, under -C debug-assertions=on AND =off: "
+      "the call never returns, the only failing check is the container's own panic site, no memory-safety check fails (no write outside the container), and a frame contract "
+      "(kani::modifies() on insert_ii under requires(full && absent)) proves nothing is written before the panic; checked_insert returns None with state unchanged and k,v destroyed once; replacing a present key succeeds; "
+      "capacity()==N, len()<=N and the insert_i debug_assert are proved by Verus for all N.",
+      BOUND + "the container's contents after unwinding are inferred from 'nothing written before the panic' plus Rust dropping not-yet-moved locals once. " + TB,
+      "expected-panic contract harnesses + frame (modifies) function contract, Kani in both build profiles; Verus for capacity/len/debug_assert", "DESIGN 6/C03")
+claim("C05",
+      "Well-formedness (len<=N, keys pairwise different) is a postcondition of every mutating contract (C01, C07, C09, C11) from every well-formed pre-state and the observational consequences "
+      "(iteration count == len, yielded keys pairwise unequal, every yielded key looks up its value, is_empty/len/capacity) are proved from an arbitrary well-formed state; "
+      "Verus proves for all N, K, V: slot-liveness invariant preserved by clear/retain/swap-remove/insert_i/IntoIter::next, key-distinctness preserved by swap-remove (for any relation) and by insert_i, is_empty/len/capacity.",
+      BOUND + TB, KH + "; invariants and lemmas discharged by Verus on the verbatim core", "DESIGN 6/C05")
+claim("C07", "Contract of every Set operation (insert, replace, contains, get, remove, take, retain, clear, drain, extend by value and by reference) against the ideal finite set, with a symbolic probe element, borrowed-form lookups and stored-object identity.",
+      BOUND + TB, KH, "DESIGN 6/C07")
+claim("C08", "For all pairs of well-formed sets at the instantiated capacity pairs and every fill level: union/intersection/difference/symmetric_difference traversals yield, for a symbolic probe, each element of the mathematical result exactly once and nothing else; "
+      "size_hint brackets the remaining count before every step; None stays None; fold equals next; intersection/difference items point into the left operand; predicates equal the mathematical truth value; '-' yields the difference; difference_ref likewise; operands unchanged.",
+      "Bounded in capacity: quick pairs up to (2,1), thorough up to (3,2)/(2,3); " + TB, KH + " with unrolled traversals", "DESIGN 6/C08")
+claim("C09", "iter, iter_mut, keys, values, values_mut, &map/&mut map into_iter, Set::iter: the j-th item is the j-th live slot, len()/size_hint() exact before every step, count() agrees, None after the end, clones continue identically, "
+      "a second traversal sees the same order (state unchanged), writes through iter_mut/values_mut are what lookups return.", BOUND + TB, KH, "DESIGN 6/C09")
+claim("C10", "into_iter/into_keys/into_values/drain and Set equivalents yield exactly the stored entries, each once (matched against unseen slots), with exact len/size_hint before every step and None forever after; "
+      "after drain (dropped after any number of steps, or forgotten) the map is empty and reusable; token ledger confirms single destruction; Verus proves IntoIter::next/size_hint/len/count for all N.",
+      BOUND + TB, KH + "; Verus for IntoIter", "DESIGN 6/C10")
+claim("C11", "entry(k) is Occupied iff present; or_insert/or_insert_with/or_insert_with_key/or_default insert only when vacant, run the closure exactly once and only then, return a reference whose address is the value stored for k; and_modify only when occupied; "
+      "Occupied::{key,get,get_mut,insert,into_mut,remove,remove_entry} and Vacant::{key,into_key,insert} have the results and whole-view effects of the direct operations.", BOUND + TB, KH, "DESIGN 6/C11")
+claim("C12", "With keys equal on id but distinguishable by tag (shape S_id): insert, checked_insert (both branches incl. full map), Set::insert and every entry path keep the stored key and drop the supplied one; insert_key_value and Set::replace store the supplied key and return the old one; "
+      "get_key_value, Set::get, take, remove_entry and all iterators expose the stored tag. Verus proves both update_key branches of insert_i for all N.", BOUND + TB, KH + " on shape S_id; Verus for insert_i", "DESIGN 6/C12")
+claim("C13", "For pairwise different keys (J up to 3 quick / 4 thorough, any mix of present/absent, J may exceed len and N): each position equals get_mut in value and address, references pairwise distinct, writes land exactly on the requested values; "
+      "two equal present keys: the call never returns and only the 'Overlapping keys' assertion fails, in both build profiles.", "Bounded: N<=3, J<=4; core's large-slice sort path is cut by a stub that asserts it is unreachable. " + TB, KH, "DESIGN 6/C13")
+claim("C14", "a==b iff same length and both inclusions with equal values (oracle independent of the implementation's one-directional shortcut), symmetric, reflexive, != is the negation, neither operand modified; all capacity pairs up to 3x3, all slot orders; Map and Set.",
+      BOUND + TB, KH, "DESIGN 6/C14")
+claim("C15", "Token ledger: after clone every stored key and value has been cloned exactly once, the clone holds only fresh elements, same len, well-formed; destroying either copy leaves the other intact; final sweep; Copy shapes: clone view equals original, compares equal, later changes do not propagate. Set likewise.",
+      BOUND + TB, KH + " + ownership ledger", "DESIGN 6/C15")
+claim("C16", "from_iter/collect/From<[_;N]>/Extend (by value and by reference) for Map and Set equal one-by-one insertion: probe key maps to (first key object, last value), len = number of distinct keys, source consumed exactly once front to back (recording iterator: L+1 calls), more distinct keys than N never returns.",
+      BOUND + "source lengths up to N+2; " + TB, KH, "DESIGN 6/C16")
+claim("C17", "Shape S_law: every == returns a fresh nondeterministic bool, pre-state only wf_weak (duplicates allowed): for every Map/Set operation, eq, from_iter, get_disjoint_mut and the set adaptors all memory-safety checks pass, ledger sweep finds each element destroyed exactly once, len<=capacity and iteration count == len, "
+      "mutable references handed out together are pairwise distinct and inside the map. Wrong answers and the container's own panics are tolerated.", BOUND + TB, KH + " with nondeterministic comparison outcomes", "DESIGN 6/C17")
+claim("C18", "insert_unchecked under (len<N or key present): Verus proves for all N that insert_i meets the full insert contract (result, slot permutation, stored-key identity, wf) and that its debug_assert holds exactly under that precondition; Kani proves insert_unchecked against the same model contract as insert and the ledger; "
+      "get_disjoint_unchecked_mut under pairwise different keys satisfies the C13 contract.", BOUND + TB, "Verus contract on insert_i (all N); " + KH, "DESIGN 6/C18")
+
+NOT_YET.update({
+})
+
 
 def main():
     checks = []
